@@ -85,58 +85,45 @@ fn format_standard(value: f64) -> String {
         return format_integer_with_separators(int_val);
     }
 
-    // Round to 15 significant figures for non-integers
-    let rounded = round_to_significant_figures(value, 15);
-
-    // Format the number, preserving significant digits
-    let formatted = format_float_significant(rounded, 15);
+    // Round to 15 significant digits with exact decimal formatting (a log10-based scale is off by
+    // one digit just below a power of ten: 999999.999999999 would become 1,000,000)
+    let formatted = format_float_significant(value, 15);
 
     // Add thousand separators to the integer part
     add_thousand_separators(&formatted)
 }
 
-/// Round a number to n significant figures
-fn round_to_significant_figures(value: f64, sig_figs: u32) -> f64 {
-    if value == 0.0 {
-        return 0.0;
-    }
-
-    let magnitude = value.abs().log10().floor() as i32;
-    let scale = 10_f64.powi(sig_figs as i32 - 1 - magnitude);
-    (value * scale).round() / scale
-}
-
-/// Format a float with up to n significant figures, removing trailing zeros
+/// Format a float in plain decimal notation with up to n significant figures, removing trailing zeros
 fn format_float_significant(value: f64, max_sig_figs: usize) -> String {
-    // Determine how many decimal places we need
-    let abs_value = value.abs();
-    let magnitude = if abs_value >= 1.0 {
-        abs_value.log10().floor() as i32 + 1
-    } else {
-        // For numbers < 1, count leading zeros
-        -(abs_value.log10().floor() as i32)
-    };
+    // "d.ddddde[-]x": the digits are the correctly rounded decimal expansion of the value
+    let scientific = format!("{:.prec$e}", value.abs(), prec = max_sig_figs - 1);
+    let (mantissa, exponent) = scientific.split_once('e').unwrap_or((&scientific, "0"));
+    let exponent: i32 = exponent.parse().unwrap_or(0);
+    let digits: String = mantissa.chars().filter(|c| c.is_ascii_digit()).collect();
 
-    // Calculate decimal places needed for significant figures
-    let decimal_places = if abs_value >= 1.0 {
-        (max_sig_figs as i32 - magnitude).max(0) as usize
-    } else {
-        // For numbers < 1, we need more decimal places
-        (max_sig_figs as i32 + magnitude - 1).max(0) as usize
-    };
-
-    let formatted = format!("{:.prec$}", value, prec = decimal_places);
-
-    // Remove trailing zeros after decimal point, but keep at least one decimal if there is a decimal point
-    if formatted.contains('.') {
-        let trimmed = formatted.trim_end_matches('0');
-        if trimmed.ends_with('.') {
-            trimmed.trim_end_matches('.').to_string()
+    let (int_part, frac_part) = if exponent >= 0 {
+        let int_len = exponent as usize + 1;
+        if digits.len() > int_len {
+            (digits[..int_len].to_string(), digits[int_len..].to_string())
         } else {
-            trimmed.to_string()
+            (
+                format!("{}{}", digits, "0".repeat(int_len - digits.len())),
+                String::new(),
+            )
         }
     } else {
-        formatted
+        (
+            "0".to_string(),
+            format!("{}{}", "0".repeat((-exponent - 1) as usize), digits),
+        )
+    };
+
+    let frac_part = frac_part.trim_end_matches('0');
+    let sign = if value < 0.0 { "-" } else { "" };
+    if frac_part.is_empty() {
+        format!("{}{}", sign, int_part)
+    } else {
+        format!("{}{}.{}", sign, int_part, frac_part)
     }
 }
 
